@@ -441,6 +441,9 @@ def generate_bufr_message(decoder, s, info_only=False, continue_on_error=False, 
                     _, b_entries, d_entries = BufrTableDefinitionProcessor().process(bufr_message)
                     TableGroupCacheManager.invalidate()
                     TableGroupCacheManager.add_extra_entries(b_entries, d_entries)
+                    # Templates compiled with the previous definitions are stale too
+                    if decoder.compiled_template_manager is not None:
+                        decoder.compiled_template_manager.cache.clear()
             idx_start += len(bufr_message.serialized_bytes)
 
             if matched:
